@@ -591,3 +591,190 @@ theorem case_conversions_emitted (c : Case) (hps : c.ps = 4 ∨ c.ps = 8) (hb : 
       exact ⟨b, bp, btd, hname, hty, htd, hsub _ List.mem_cons_self, fun e he' => hsub e (List.mem_cons_of_mem _ he')⟩
 
 end PyxisVerif.C07
+
+/-! ## C11 -/
+namespace PyxisVerif.C11
+open Gen Layout CaseLift CaseLift2
+
+/-- **`lookup_sites` and `emitted_reference` for the fields of every emitted struct of every accepted case.**  Every
+    emitted struct `p` of the final registry is a generated vftable struct or was built from a definition written in the
+    case under module path `path`; then every field of the emitted struct is generated (private, undocumented: padding,
+    the vftable pointer) or is a named field statement `name: ty` of the definition, and its type is `ty` resolved
+    (`resolve_grammar_type`) with the scope "own module path, then the `use` entries of the module written in the case
+    under that path" (`UsesOf`), in a registry `s0.reg` that the final registry extends; a bare name goes through the one
+    lookup rule (`resolveString` with that scope); every definition the binding mentions exists in the final registry;
+    and the type string of the emitted field is `tyStr` of that binding – for a named definition its fully qualified crate
+    path.  The struct item emitted lists one `fld` per region with that type string. -/
+theorem case_lookup_sites_fields (c : Case) (hps : c.ps = 4 ∨ c.ps = 8) (hb : C12.CaseBounded c) (s : State)
+    (h : c.run = .ok s) (p : Path) (i : ItemDef) (r : Resolved) (td : TypeDefn)
+    (hg : s.reg.get p = some i) (hs : i.state = .res r) (hin : r.inner = .type td) (hc : i.cat = .defined) :
+    (∃ (reg0 : Registry) (owner : Path) (vis : Vis) (fns : List SFunc),
+        buildVftableItem reg0 owner vis fns = some i ∧ i.path = p ∧ i.vis = vis ∧
+        td = { regions := fns.map (functionToRegion owner) }) ∨
+    ∃ (item : G.Item) (d : G.TypeDef) (s0 : State) (path : Path) (uses : List Path),
+      Declared c p item ∧ item.inner = .type d ∧ p = path ++ [item.name] ∧ C02.Ext s0.reg s.reg ∧ UsesOf c path uses ∧
+      (∃ hd tl, Emit.itemItems s.reg i = Sexp.mk "struct" (hd ++ td.regions.map fun rg =>
+          Sexp.mk "fld" [Emit.docsS rg.doc, Emit.visS rg.vis, .str (rg.name.getD ""), .str (Emit.rtyStr rg.ty)]) :: tl) ∧
+      ∀ rg ∈ td.regions, (rg.vis = .priv ∧ rg.doc = none) ∨
+        ∃ st ∈ d.stmts, ∃ (vis : Vis) (name : String) (ty : G.Ty) (t : DTy),
+          st.field = .field vis name ty ∧ rg.name = some name ∧
+          s0.reg.resolveTy (path :: uses) ty = .ok t ∧ rg.ty = .data t ∧
+          (∀ nm, ty = .ident nm → s0.reg.resolveString (path :: uses) nm = some t) ∧
+          (∀ q ∈ C13.rawPaths t, s.reg.contains q = true) ∧
+          Emit.rtyStr rg.ty = Emit.tyStr t ∧
+          (∀ q, t = .raw q → Emit.rtyStr rg.ty =
+            if q = ["void"] then "::std::ffi::c_void"
+            else if q.length > 1 then "crate::" ++ "::".intercalate q else "::".intercalate q) := by
+  rcases case_field_types_master c hps hb s h p i r td hg hs hin hc with hv |
+    ⟨item, d, s0, path, uses, hD, hd, hp, he, huses, hall⟩
+  · exact Or.inl hv
+  · refine Or.inr ⟨item, d, s0, path, uses, hD, hd, hp, he, huses, ?_, ?_⟩
+    · obtain ⟨derives, repr, tl, hem⟩ := C17.docs_on_struct_and_fields s.reg i.path r.size r.align i.vis td
+      rw [itemItems_type s.reg i r td hc hs hin, hem]
+      exact ⟨_, tl, rfl⟩
+    · intro rg hrg
+      rcases hall rg hrg with hgen | ⟨st, hst, vis, name, ty, t, hf, hname, hrt, hty⟩
+      · exact Or.inl hgen
+      · refine Or.inr ⟨st, hst, vis, name, ty, t, hf, hname, hrt, hty, ?_, ?_, by rw [hty]; rfl, ?_⟩
+        · intro nm hnm
+          subst hnm
+          exact resolveTy_ident s0.reg (path :: uses) nm t hrt
+        · intro q hq
+          exact contains_ext he q (C13.printed_paths_exist s0.reg (path :: uses) ty t hrt q hq)
+        · intro q hq
+          rw [hty, hq]
+          exact emitted_reference q
+
+/-- **`lookup_sites` for the parameter and return types of every function of every emitted struct.**  Every
+    associated function of an emitted struct of the final registry is an inherited forwarder, or is built from a function
+    `gf` written in a function block for the type in the case, and then its parameters are the declared ones and every
+    named parameter's type, and the return type, is the written type resolved with the scope "own module path, then the
+    `use` entries of the module written under that path", in a registry `s1.reg` that the final registry extends
+    (`FnTypes`); if the definition starts with a vftable block the same holds for every non-placeholder slot of the
+    type's table.  The emitted wrapper lists the parameters as `name: tyStr(binding)` and the return type as
+    `tyStr(binding)`. -/
+theorem case_lookup_sites_functions (c : Case) (hps : c.ps = 4 ∨ c.ps = 8) (hb : C12.CaseBounded c) (s : State)
+    (h : c.run = .ok s) (p : Path) (i : ItemDef) (r : Resolved) (td : TypeDefn)
+    (hg : s.reg.get p = some i) (hs : i.state = .res r) (hin : r.inner = .type td) (hc : i.cat = .defined) :
+    (∀ f ∈ td.fns,
+      ((∃ b fn, f.body = .field b fn) ∨
+       ∃ (gf : G.Func) (s1 : State) (path : Path) (uses : List Path),
+        DeclaredFn c p gf ∧ (∃ name, p = path ++ [name]) ∧ C02.Ext s1.reg s.reg ∧ UsesOf c path uses ∧
+        f.name = gf.name ∧ FnTypes s1.reg (path :: uses) gf f) ∧
+      ∃ body, Emit.methodS f = Sexp.mk "method" [Emit.docsS f.doc, Emit.visS f.vis, .str f.name,
+        Sexp.mk "params" (f.args.map Emit.paramS), Emit.optTyS f.ret, body]) ∧
+    (∀ v, td.vft = some v →
+      ∃ (item : G.Item) (d : G.TypeDef) (s0 : State) (path : Path) (uses : List Path),
+        Declared c p item ∧ item.inner = .type d ∧ p = path ++ [item.name] ∧ C02.Ext s0.reg s.reg ∧ UsesOf c path uses ∧
+        ∀ st gfns, d.stmts[0]? = some st → st.field = .vftable gfns →
+          ∀ (k : Nat) (f : SFunc), v.fns[k]? = some f →
+            (∃ gf ∈ gfns, f.name = gf.name ∧ FnTypes s0.reg (path :: uses) gf f) ∨ f = placeholderFn k) ∧
+    (∀ n t, Emit.paramS (.field n t) = Sexp.mk "arg" [.str n, .str (Emit.tyStr t)]) ∧
+    (∀ t, Emit.optTyS (some t) = Sexp.ofOpt (fun t => .str (Emit.tyStr t)) (some t)) := by
+  refine ⟨?_, ?_, fun _ _ => rfl, fun _ => rfl⟩
+  · intro f hf
+    refine ⟨?_, _, rfl⟩
+    rcases C05.case_built_shape c hps hb s h p i r td hg hs hin hc f hf with hfw |
+      ⟨gf, s1, path, file, m, hgf, hm, hp, he, hbf, _, _, _, hname, _⟩
+    · exact Or.inl hfw
+    · exact Or.inr ⟨gf, s1, path, m.uses, hgf, hp, he, Or.inr ⟨file, m, hm, rfl⟩, hname,
+        fnTypes_of_built s1.reg (path :: m.uses) false gf f hbf⟩
+  · intro v hv
+    obtain ⟨item, d, s0, path, uses, hD, hd, hp, he, huses, hall⟩ :=
+      case_vfunc_types_master c hps hb s h p i r td hg hs hin hc v hv
+    refine ⟨item, d, s0, path, uses, hD, hd, hp, he, huses, ?_⟩
+    intro st gfns hst hf k f hk
+    rcases hall st gfns hst hf k f hk with ⟨gf, hgf, hbf⟩ | hph
+    · exact Or.inl ⟨gf, hgf, (C04.vfunc_body s0.reg (path :: uses) gf f hbf).2,
+        fnTypes_of_built s0.reg (path :: uses) true gf f hbf⟩
+    · exact Or.inr hph
+
+/-- **`lookup_sites` for the base type of every enum**: the base of every resolved enum of the final registry is the
+    written base type resolved with the scope "own module path, then the `use` entries of the module written under that
+    path", in a registry the final one extends; the emitted item carries `repr(tyStr(binding))` -/
+theorem case_lookup_sites_enum (c : Case) (hps : c.ps = 4 ∨ c.ps = 8) (hb : C12.CaseBounded c) (s : State)
+    (h : c.run = .ok s) (p : Path) (i : ItemDef) (r : Resolved) (ed : EnumDefn)
+    (hg : s.reg.get p = some i) (hs : i.state = .res r) (hin : r.inner = .enum ed) :
+    ∃ (item : G.Item) (d : G.EnumDef) (s0 : State) (path : Path) (uses : List Path),
+      Declared c p item ∧ item.inner = .enum d ∧ p = path ++ [item.name] ∧ C02.Ext s0.reg s.reg ∧ UsesOf c path uses ∧
+      s0.reg.resolveTy (path :: uses) d.ty = .ok ed.ty ∧
+      (∀ q ∈ C13.rawPaths ed.ty, s.reg.contains q = true) ∧
+      ∃ docs derives rest tl, Emit.itemItems s.reg i =
+        Sexp.mk "enum" (docs :: derives :: Sexp.mk "repr" [.str (Emit.tyStr ed.ty)] :: rest) :: tl := by
+  obtain ⟨s0, item, d, _, _, hQ, hD, _, hd, hbe, he, hi⟩ := case_enum_origin2 c hps hb s h p i r ed hg hs hin
+  obtain ⟨module, ty, _, _, _, ed', hmod, hres, _, _, _, _, _, _, hin', hty', _⟩ := buildEnum_full s0 p d r hbe
+  rw [hin] at hin'
+  cases hin'
+  have hD' := hD
+  obtain ⟨path, file0, m0, hm0, hitem0, hp⟩ := hD'
+  subst hp
+  obtain ⟨uses, hscope, huses⟩ := scope_src c s0 hQ path item.name module hmod
+  rw [hscope, ← hty'] at hres
+  refine ⟨item, d, s0, path, uses, hD, hd, rfl, he, huses, hres, ?_, ?_⟩
+  · intro q hq
+    exact contains_ext he q (C13.printed_paths_exist s0.reg (path :: uses) d.ty ed.ty hres q hq)
+  · obtain ⟨docs, derives, tl, hem⟩ := C08.emitted (path ++ [item.name]) r.size item.vis ed
+    rw [itemItems_enum s.reg i r ed (by rw [hi]; rfl) hs hin, hi]
+    exact ⟨docs, derives, _, tl, hem⟩
+
+/-- **`lookup_sites` for extern values**: the type of every extern value of every module of the final state is the
+    type written on an extern value of the case under the module's path, resolved – in the final registry – with the
+    scope "own module path, then the `use` entries of the module written under that path"; the emitted accessor returns
+    `tyStr(binding)` -/
+theorem case_lookup_sites_xvals (c : Case) (hps : c.ps = 4 ∨ c.ps = 8) (hb : C12.CaseBounded c) (s : State)
+    (h : c.run = .ok s) :
+    ∀ e ∈ s.modules, ∀ x ∈ e.2.xvals, ∃ (gx : G.XVal) (uses : List Path) (t : DTy),
+      DeclaredX c e.1 gx ∧ UsesOf c e.1 uses ∧ s.reg.resolveTy (e.1 :: uses) gx.ty = .ok t ∧ x.ty = some t ∧
+      (∀ q ∈ C13.rawPaths t, s.reg.contains q = true) ∧
+      Emit.xvalItem x = Sexp.mk "xaccessor" [Emit.visS x.vis, .str ("get_" ++ unraw x.name), .str (Emit.tyStr t), .int x.addr] := by
+  intro e he x hx
+  obtain ⟨gx, hgx, ⟨a, _, _, _, _, _, hgty⟩, t, ht, hty⟩ := case_xvals c s h e he x hx
+  obtain ⟨hscope, huses⟩ := case_modules_src c hps hb s h e he
+  rw [hscope, hgty] at ht
+  exact ⟨gx, e.2.uses, t, hgx, huses, ht, hty, C13.printed_paths_exist s.reg _ gx.ty t ht,
+    C15.extern_accessor_emitted x t hty⟩
+
+/-- **`layout_uses_binding`, for every accepted case**: the layout core, run in the final registry on the declared
+    fields of an emitted struct, accepts them with the struct's size (`case_layout_master`), and the size and alignment it
+    is handed for a field whose type is a named definition `bq` are exactly those recorded for `bq` in the final
+    registry -/
+theorem case_layout_uses_binding (c : Case) (hps : c.ps = 4 ∨ c.ps = 8) (hb : C12.CaseBounded c) (s : State)
+    (h : c.run = .ok s) (p : Path) (i : ItemDef) (r : Resolved) (td : TypeDefn)
+    (hg : s.reg.get p = some i) (hs : i.state = .res r) (hin : r.inner = .type td) (hc : i.cat = .defined) :
+    (∃ (reg0 : Registry) (owner : Path) (vis : Vis) (fns : List SFunc),
+      buildVftableItem reg0 owner vis fns = some i ∧ i.path = p) ∨
+    ∃ (item : G.Item) (d : G.TypeDef) (ta : TypeAttrs) (pending : List (Option Nat × Region)) (vptr : Option Region)
+      (placed : List (Placed Region)),
+      Declared c p item ∧ item.inner = .type d ∧
+      resolve (vptr.map (toPField s.reg none)) (pending.map fun q => toPField s.reg q.1 q.2) ta.targetSize
+        = .ok (placed, r.size) ∧
+      ∀ q ∈ pending, ∀ bq, q.2.ty = .data (.raw bq) →
+        DTy.size s.reg (.raw bq) = .ok ((s.reg.get bq).bind fun i => i.resolved?.map (·.size)) ∧
+        DTy.align s.reg (.raw bq) = ((s.reg.get bq).bind fun i => i.resolved?.map (·.align)) ∧
+        ∃ bi br, s.reg.get bq = some bi ∧ bi.state = .res br ∧
+          (toPField s.reg q.1 q.2).size = .ok (some br.size) ∧ (toPField s.reg q.1 q.2).align = some br.align := by
+  rcases case_layout_master c hps hb s h p i r td hg hs hin hc with hv |
+    ⟨item, d, s0, module, ta, sa, vptr, placed, hD, hd, _, _, _, _, _, _, hres, _⟩
+  · exact Or.inl hv
+  · refine Or.inr ⟨item, d, ta, sa.pending, vptr, placed, hD, hd, hres, ?_⟩
+    intro q hq bq hty
+    obtain ⟨n, hn⟩ := (resolve_sizes _ _ _ _ _ hres).2 (toPField s.reg q.1 q.2) (List.mem_map.mpr ⟨q, hq, rfl⟩)
+    refine ⟨(layout_uses_binding s.reg bq).1, (layout_uses_binding s.reg bq).2, ?_⟩
+    have hn' : q.2.ty.size s.reg = .ok (some n) := hn
+    rw [hty] at hn'
+    simp only [RTy.size, DTy.size, Res.ok.injEq] at hn'
+    cases hgq : s.reg.get bq with
+    | none => rw [hgq] at hn'; cases hn'
+    | some bi =>
+      rw [hgq] at hn'
+      simp only [Option.bind_some, Option.map_eq_some_iff] at hn'
+      obtain ⟨br, hbr, rfl⟩ := hn'
+      refine ⟨bi, br, rfl, C02.resolved?_eq hbr, ?_, ?_⟩
+      · show q.2.ty.size s.reg = _
+        rw [hty]
+        simp only [RTy.size, DTy.size, hgq, Option.bind_some, hbr, Option.map_some]
+      · show q.2.ty.align s.reg = _
+        rw [hty]
+        simp only [RTy.align, DTy.align, hgq, Option.bind_some, hbr, Option.map_some]
+
+end PyxisVerif.C11
